@@ -40,9 +40,10 @@ where
     type Content = DataView<Self>;
 
     async fn from_body(body: Body) -> Result<Self::Content, Status> {
+        // The only way reading the body can fail is the connection being lost.
         let bytes = crate::utils::to_aligned(body.0)
             .await
-            .map_err(Status::internal)?;
+            .map_err(Status::connection)?;
 
         DataView::using(bytes).map_err(|_| Status::invalid())
     }
